@@ -45,6 +45,10 @@ class UnlistedErr(Exception):
     pass
 
 
+class BareTimeout(TimeoutError):
+    """raised without arguments by the wrapped function itself"""
+
+
 def run_c19(case):
     """returns observation dict"""
     from vloop import VLoop
@@ -93,6 +97,12 @@ def run_c19(case):
             e = UnlistedErr(k)
             obs['raised'][k] = e
             raise e
+        if kind == 'B':
+            # the function's own timeout: a TimeoutError (subclass) without arguments, as an inner wait_for / asyncio.timeout
+            # raises it - an exception of the function like any other, not a cut-off of the attempt
+            e = BareTimeout()
+            obs['raised'][k] = e
+            raise e
         return k
 
     async def main():
@@ -122,11 +132,11 @@ def run_c19(case):
             return ('ret', v)
         except asyncio.CancelledError:
             return ('cancelled', None)
-        except TimeoutError as e:
-            return ('timeout', None)
-        except (ListedErr, UnlistedErr) as e:
+        except (ListedErr, UnlistedErr, BareTimeout) as e:
             idx = next((k for k, x in obs['raised'].items() if x is e), None)
             return ('raised', idx)
+        except TimeoutError as e:
+            return ('timeout', None)
         except BaseException as e:  # noqa: BLE001
             return ('other', type(e).__name__)
 
@@ -152,7 +162,7 @@ def gen_c19(rng):
     retry_on = rng.choice([None, 'L', 'LT', None, 'L', 'LT', 'E'])    # 'E': the empty tuple - nothing is listed
     atts = []
     for k in range(retries + 2):
-        kinds = ['ok', 'L', 'L', 'L', 'O', 'O']
+        kinds = ['ok', 'L', 'L', 'L', 'O', 'O', 'B']
         if retry_on is not None:
             kinds += ['U']
         if rng.random() < 0.06:
@@ -172,6 +182,9 @@ def model_line_c19(i, case):
         kind = a[0]
         if kind == 'L' and case['retry_on'] == 'E':
             return 'U0'         # with an empty retry_on no exception type is listed
+        if kind == 'B':
+            # a TimeoutError of the function's own is retried when every exception is (retry_on None) or TimeoutError is listed
+            return 'L0' if case['retry_on'] in (None, 'LT') else 'U0'
         return {'ok': 'ok0', 'L': 'L0', 'U': 'U0', 'O': 'O', 'C': 'C'}[kind]
     toks = []
     for k, a in enumerate(case['atts']):
